@@ -269,14 +269,17 @@ BATCH_OPS = ('iloc', 'loc_col', 'neg', 'mul', 'sum', 'mean', 'min', 'max', 'appl
 @st.composite
 def batch_cases(draw):
     chain = draw(st.lists(st.sampled_from(BATCH_OPS), min_size=1, max_size=3))  # decisive choices first
-    export = draw(st.sampled_from(['items', 'to_frame', 'to_bus']))
+    export = draw(st.sampled_from(['items', 'to_frame', 'to_bus', 'to_frame']))
+    tf = {'axis': draw(st.integers(0, 1)), 'union': draw(st.booleans()), 'fill': draw(st.sampled_from(['default', 0, -1.5]))}
     k = draw(st.sampled_from([2, 3, 1, 4]))
     frames = []
     for q in range(k):
         n = draw(st.integers(1, 4))
         cols = [draw(gen.column(draw(st.sampled_from(['int64', 'float64'])), n, missing=True)) for _ in range(2)]
-        frames.append({'cols': cols, 'index': draw(gen.flat_labels(n, 'int'))})
-    return {'frames': frames, 'chain': chain, 'export': export}
+        # members share column 'a'; the second column differs between members two times out of three, so that the
+        # union and the intersection of the member results differ
+        frames.append({'cols': cols, 'index': draw(gen.flat_labels(n, 'int')), 'names': ('a', draw(st.sampled_from(['b', 'c', 'b'])))})
+    return {'frames': frames, 'chain': chain, 'export': export, 'tf': tf}
 
 
 def _apply_chain(x, chain, rep=None):
@@ -340,7 +343,7 @@ def _apply_chain(x, chain, rep=None):
 
 
 def check_batch(case):
-    frames = [sf.Frame.from_items(zip(('a', 'b'), spec['cols']), index=spec['index'], name='f%d' % q) for q, spec in enumerate(case['frames'])]
+    frames = [sf.Frame.from_items(zip(spec.get('names', ('a', 'b')), spec['cols']), index=spec['index'], name='f%d' % q) for q, spec in enumerate(case['frames'])]
     chain = case['chain']
     expected = {}
     for f in frames:
@@ -362,19 +365,23 @@ def check_batch(case):
         if a != b:
             raise Failure('batch-differs', 'Batch chain %s under %r -> %s; the member alone -> %s' % (chain, k, short(b, 400), short(a, 400)))
     if case['export'] == 'to_frame':
-        r = lib(lambda: _apply_chain(sf.Batch.from_frames(frames), chain, rep=frames[0]).to_frame())
+        tf = case.get('tf', {'axis': 0, 'union': True, 'fill': 'default'})
+        kw = {'axis': tf['axis'], 'union': tf['union']}
+        if tf['fill'] != 'default':
+            kw['fill_value'] = tf['fill']
+        r = lib(lambda: _apply_chain(sf.Batch.from_frames(frames), chain, rep=frames[0]).to_frame(**kw))
         vals = list(expected.values())
         if all(isinstance(v, sf.Frame) for v in vals):
-            want = lib(lambda: sf.Frame.from_concat_items(expected.items(), axis=0))
+            want = lib(lambda: sf.Frame.from_concat_items(expected.items(), **kw))
         elif all(isinstance(v, sf.Series) for v in vals):
-            want = lib(lambda: sf.Frame.from_concat([v.rename(k) for k, v in expected.items()], axis=0))
+            want = lib(lambda: sf.Frame.from_concat([v.rename(k) for k, v in expected.items()], **kw))
         else:
             want = None
         if want is not None and not isinstance(want, Raised):
             if isinstance(r, Raised):
-                raise Failure('raised:%s' % r.cls, 'Batch chain %s .to_frame() raised %r' % (chain, r.exc), r.where)
+                raise Failure('raised:%s' % r.cls, 'Batch chain %s .to_frame(%r) raised %r' % (chain, kw, r.exc), r.where)
             if _snap_any(r) != _snap_any(want):
-                raise Failure('export-differs', 'Batch chain %s .to_frame() -> %s; concatenating the member results -> %s' % (chain, short(_snap_any(r), 400), short(_snap_any(want), 400)))
+                raise Failure('export-differs', 'Batch chain %s .to_frame(%r) -> %s; concatenating the member results -> %s' % (chain, kw, short(_snap_any(r), 400), short(_snap_any(want), 400)))
     elif case['export'] == 'to_bus':
         vals = list(expected.values())
         if all(isinstance(v, sf.Frame) for v in vals):
